@@ -8,7 +8,7 @@ from concurrent.futures import ThreadPoolExecutor
 
 ROOT = os.path.dirname(os.path.dirname(os.path.abspath(__file__)))
 HARNESS = os.path.join(ROOT, "harness")
-TARGET = os.path.join(ROOT, "target")
+TARGET = os.environ.get("VERIF_TARGET") or os.path.join(ROOT, "target")
 VRUN = os.path.join(TARGET, "debug", "vrun")
 VRUN_ENUM = os.path.join(ROOT, "target-enum", "debug", "vrun")
 OUT = os.path.join(ROOT, "out")
@@ -38,6 +38,8 @@ def build(enum_too=False, packages=("vrun",)):
     if not os.path.exists(lock):
         shutil.copy("/repo/Cargo.lock", lock)
     cmd = ["cargo", "build", "--offline"]
+    if os.environ.get("VERIF_TARGET"):
+        cmd += ["--target-dir", TARGET]
     for p in (packages or []):
         cmd += ["-p", p]
     cmds = [(cmd, {})]
